@@ -2,7 +2,8 @@
 R1 register_buffer casts to (self.device, self.dtype) before its single store; R2 to(): reject non-floating, update declaration,
 re-register every buffer, return self; R3 constructors end with self.to(dtype, device) and simulate forwards self.dtype/device;
 R4 alias methods map to the right dtype; R5 derivatives alias their underlier; R6 constants follow the data's dtype.
-Added after the seeded-defect rounds: R7 concrete instruments do not replace the state operations nor keep tensor state outside _buffers; derived series (spot/volatility/variance) leave nothing on the instrument."""
+Added after the seeded-defect rounds: R7 concrete instruments do not replace the state operations nor keep tensor state outside _buffers; derived series (spot/volatility/variance) leave nothing on the instrument.
+Third round: R8 buffer-registry and re-configuration histories of every primary class."""
 import ast
 
 from .. import world as W
